@@ -204,6 +204,33 @@ Section PoolFacts.
     rewrite <- app_assoc. apply Permutation_app_head. symmetry. apply filter_partition_perm.
   Qed.
 
+  (* broadcastCertificate only drops, reorders and moves commits: the pool stays valid and duplicate-free, and what it
+     drops is decided by the height alone: a commit survives iff its height is above the certified height carried by the
+     finalised block and (it lies in the last 100 finalised heights below maxHeightPrecommitted — uint32 arithmetic — or
+     BFT parameters exist at the next height) *)
+  Theorem broadcast_preserves_ok : forall e tip published p,
+    pool_ok e (all p) -> pool_ok e (all (broadcast_certificate e tip published p)).
+  Proof.
+    intros e tip published p Hok. unfold broadcast_certificate.
+    destruct (chain_at (e_chain e) (e_mhp e)) as [fin|]; auto.
+    set (p1 := cleanup p (cleanup_keep e (h_ac_height fin))).
+    assert (H1 : pool_ok e (all p1)) by (apply cleanup_preserves_ok; auto).
+    destruct (Nat.eqb (pool_size sigT p1) 0); auto.
+    destruct (get_params e tip) as [prm|]; auto.
+    pose proof (select_preserves_ok e p1 (e_mhp e) (length (p_validators prm)) H1) as H2.
+    destruct (select p1 (e_mhp e) (length (p_validators prm))) as [sel p2]. simpl in H2.
+    destruct sel; auto. destruct published; auto. apply upgrade_preserves_ok; auto.
+  Qed.
+
+  Theorem broadcast_cleanup_spec : forall e rh h,
+    cleanup_keep e rh h = true <->
+    rh < h /\ ((sub32 (e_mhp e) 100 <= h /\ h < e_mhp e) \/ exist_params e (u32 (h + 1)) = true).
+  Proof.
+    intros e rh h. unfold cleanup_keep. set (x := sub32 (e_mhp e) 100).
+    destruct (exist_params e (u32 (h + 1))); destruct (h <=? rh) eqn:A; destruct (x <=? h) eqn:B;
+      destruct (h <? e_mhp e) eqn:C; simpl; intuition (try lia; try discriminate).
+  Qed.
+
   (* ---- reachable pool states *)
   Inductive reachable (e : env) : pool -> Prop :=
   | r_empty : reachable e (empty_pool sigT)
